@@ -299,17 +299,63 @@ pub fn strategy() -> BoxedStrategy<Case> {
         .boxed()
 }
 
+/// wide strokes through shallow bends: the join wedge on the outer side of a vertex is as wide as
+/// (half width) x (turning angle), so it only becomes visible against the margin when the stroke is tens of
+/// pixels wide; the part `region` (device width <= 16) cannot see a wedge that is missing or on the wrong side
+/// for turning angles of a few degrees
+pub fn wide_strategy() -> BoxedStrategy<Case> {
+    let turn = prop_oneof![
+        4 => prop_oneof![0.2f32..6.0, -6.0f32..-0.2],
+        1 => Just(0.0f32),
+        2 => -120.0f32..120.0,
+        1 => prop_oneof![174.0f32..180.0, -180.0f32..-174.0],
+    ];
+    let step = (turn, 8.0f32..60.0);
+    (24i32..=40, 24i32..=40)
+        .prop_flat_map(move |(w, h)| {
+            let miter = prop_oneof![2 => Just(10.0f32), 1 => Just(4.0f32), 1 => 1.0f32..12.0];
+            let xf = prop_oneof![
+                3 => Just(IDENT),
+                1 => (0.0f32..360.0, 0.5f32..2.0).prop_map(|(a, s)| { let r = (a as f64).to_radians(); let (c, sn) = ((r.cos() * s as f64) as f32, (r.sin() * s as f64) as f32); [c, sn, -sn, c, 0.0, 0.0] }),
+            ];
+            // the first interior vertex is placed on the surface; the path runs through it
+            (Just((w, h)), (0.2f32..0.8, 0.2f32..0.8), 0.0f32..360.0, 8.0f32..60.0, prop::collection::vec(step.clone(), 1..=3), any::<bool>(), 30.0f32..110.0, 0u8..3, 0u8..3, miter, xf)
+        })
+        .prop_map(|((w, h), (fx, fy), a0, l0, steps, closed, width, cap, join, miter, xf)| {
+            // device position of the first interior vertex -> user space
+            let dev = (fx as f64 * w as f64, fy as f64 * h as f64);
+            let inv = xf_inverse64(&xf).unwrap_or([1.0, 0.0, 0.0, 1.0, 0.0, 0.0]);
+            let v = (inv[0] * dev.0 + inv[2] * dev.1 + inv[4], inv[1] * dev.0 + inv[3] * dev.1 + inv[5]);
+            let mut dir = a0 as f64;
+            let start = (v.0 - dir.to_radians().cos() * l0 as f64, v.1 - dir.to_radians().sin() * l0 as f64);
+            let mut ops = vec![POp::M(start.0 as f32, start.1 as f32), POp::L(v.0 as f32, v.1 as f32)];
+            let (mut cx, mut cy) = v;
+            for (t, l) in steps {
+                dir += t as f64;
+                cx += dir.to_radians().cos() * l as f64;
+                cy += dir.to_radians().sin() * l as f64;
+                ops.push(POp::L(cx as f32, cy as f32));
+            }
+            if closed {
+                ops.push(POp::Z);
+            }
+            let s = smax(&xf) as f32;
+            Case { w, h, path: PathSpec { ops, evenodd: false }, style: StyleSpec { width: Fl(width / s), cap, join, miter: Fl(miter), dash: vec![], offset: Fl(0.0) }, xf }
+        })
+        .boxed()
+}
+
 pub fn property(ctx: &Ctx) -> Property {
     let seams_open = ctx.excluded(SEAM_KEY);
     Property {
         id: "C04",
-        rule: "cases: 1-3 subpaths built by turtle steps (turning angles uniform, 0/45/90/135/180 degrees, within 1 degree of 0/180; segment lengths 0.25..14 px plus exact duplicate points), open or closed, or quadratic/cubic subpaths (curve class), widths 0.3..12 plus 0, -1 and NaN, all 3 caps x 3 joins, miter limits 0..12 incl. sqrt2, 2, 4, 10, transforms identity / translation / rotation x uniform scale 0.3-4 / anisotropic (condition <= 20, curves <= 4) / shear, white on transparent 24..40 px surfaces. Oracle: union of convex pieces built from the statement (segment rectangles; round sector / bevel triangle / miter quadrilateral or bevel by the miter-limit test on the outer side of every interior and closing vertex; caps at both ends of open subpaths) in user space, exact membership through the inverse transform, union boundary sampled at 1/16 px; a pixel whose whole area is more than the margin (0.5 px polylines, 1 px curves) inside must be exactly 0xffffffff, more than the margin outside exactly 0; width <= 0 or NaN paints nothing. Non-trivial: >=1 must-paint and >=1 must-stay pixel; distinct by hash of the case.",
+        rule: "cases: 1-3 subpaths built by turtle steps (turning angles uniform, 0/45/90/135/180 degrees, within 1 degree of 0/180; segment lengths 0.25..14 px plus exact duplicate points), open or closed, or quadratic/cubic subpaths (curve class), widths 0.3..12 plus 0, -1 and NaN, all 3 caps x 3 joins, miter limits 0..12 incl. sqrt2, 2, 4, 10, transforms identity / translation / rotation x uniform scale 0.3-4 / anisotropic (condition <= 20, curves <= 4) / shear, white on transparent 24..40 px surfaces. part wide: polylines of 2-4 segments of 8..60 px through a vertex on the surface, device widths 30..110 px, turning angles mostly 0.2..6 degrees of either sign (also 0, general, near 180), open or closed, all caps/joins, identity or rotation x scale; same oracle (a join wedge of a shallow bend is only wider than the margin when the stroke is this wide). Oracle: union of convex pieces built from the statement (segment rectangles; round sector / bevel triangle / miter quadrilateral or bevel by the miter-limit test on the outer side of every interior and closing vertex; caps at both ends of open subpaths) in user space, exact membership through the inverse transform, union boundary sampled at 1/16 px; a pixel whose whole area is more than the margin (0.5 px polylines, 1 px curves) inside must be exactly 0xffffffff, more than the margin outside exactly 0; width <= 0 or NaN paints nothing. Non-trivial: >=1 must-paint and >=1 must-stay pixel; distinct by hash of the case.",
         assumptions: vec![
             "a band of margin + half a pixel diagonal + 1/32 px around the region boundary is not judged",
             "threshold decisions (miter limit within 1e-3, turning angle within 1e-3 of 0/180 degrees) are taken the smaller way for 'must paint' and the larger way for 'must stay'",
             "curves: pieces are built on an f64 flattening accurate to 0.01 px; the 1 px margin absorbs raqote's 0.1/sqrt(det) flattening",
         ],
-        parts: vec![part("region", 8_000, 250_000, strategy, move |c| check(c, seams_open))],
+        parts: vec![part("region", 8_000, 250_000, strategy, move |c| check(c, seams_open)), part("wide", 3_000, 100_000, wide_strategy, move |c| check(c, seams_open))],
         min_class_fraction: vec![
             ("region", "join-visible", 0.2),
             ("region", "cap-visible", 0.15),
